@@ -31,7 +31,7 @@ def run_config(chk, tier, cfgname):
     typestate.apply(chk, "O6-root-paths", "root_paths", aspects=("safety",))
     typestate.report_automaton(chk, ["S1", "S2", "S3", "S7", "ANALYSIS"])
     common.protocol_rows(chk, prog, "O5-O8-protocol", ["collect_debt", "finish_cycle", "start_sweeping", "cycle_debt"],
-                         per_method=False)
+                         per_method=False, aspects=("safety",))
     # O1 free-site discipline
     n = common.confined(chk, prog, "O1-free-sites", "gc_ptr::GcPtr::drop_in_place", PRIMS, "value destructed outside sweep/arena drop")
     n += common.confined(chk, prog, "O1-free-sites", "gc_ptr::GcPtr::dealloc",
